@@ -53,16 +53,21 @@ int main(void)
         secret_sig_init(&sig);
         protocols_keygen(&pk, &sk);
         int ok = protocols_sign(&sig, &pk, &sk, msg, (size_t)mlen, 0);
-        int verdict = protocols_verif(&sig, &pk, msg, (size_t)mlen);
+        int verdict = ok == 1 ? protocols_verif(&sig, &pk, msg, (size_t)mlen) : -1;
         printf("R pk=");
         put_curve(&pk.curve);
-        printf(" hint=%d,%d | sig: Eaux=", pk.hint_pk[0], pk.hint_pk[1]);
-        put_curve(&sig.E_aux);
-        printf(" bt=%d r=%d", sig.backtracking, sig.two_resp_length);
-        gmp_printf(" M=%Zx,%Zx,%Zx,%Zx c=%Zx", sig.mat_Bchall_can_to_B_chall[0][0], sig.mat_Bchall_can_to_B_chall[0][1],
-                   sig.mat_Bchall_can_to_B_chall[1][0], sig.mat_Bchall_can_to_B_chall[1][1], sig.chall_coeff);
-        printf(" b=%d ha=%d,%d hc=%d,%d | ok=%d verdict=%d\n", sig.chall_b, sig.hint_aux[0], sig.hint_aux[1],
-               sig.hint_chall[0], sig.hint_chall[1], ok, verdict);
+        printf(" hint=%d,%d | ", pk.hint_pk[0], pk.hint_pk[1]);
+        if (ok == 1) { /* with the H1 steering hooks protocols_sign may return -1 ("steering unmet"): no signature to print */
+            printf("sig: Eaux=");
+            put_curve(&sig.E_aux);
+            printf(" bt=%d r=%d", sig.backtracking, sig.two_resp_length);
+            gmp_printf(" M=%Zx,%Zx,%Zx,%Zx c=%Zx", sig.mat_Bchall_can_to_B_chall[0][0], sig.mat_Bchall_can_to_B_chall[0][1],
+                       sig.mat_Bchall_can_to_B_chall[1][0], sig.mat_Bchall_can_to_B_chall[1][1], sig.chall_coeff);
+            printf(" b=%d ha=%d,%d hc=%d,%d", sig.chall_b, sig.hint_aux[0], sig.hint_aux[1], sig.hint_chall[0], sig.hint_chall[1]);
+        } else {
+            printf("sig: none");
+        }
+        printf(" | ok=%d verdict=%d\n", ok, ok == 1 ? verdict : -1);
         fflush(stdout);
         public_key_finalize(&pk);
         secret_key_finalize(&sk);
